@@ -13,6 +13,13 @@ Tie (four streams, all against the working tree named by VERIF_REPO):
              and `get_table_group(...).key` over the bundled tree  vs  the model's fall-back chain.
   unknown    messages encoded by the Encoder whose section 3 is patched to name a descriptor that is in no table
              (top level, inside a replication, in factor position): decoding must raise UnknownDescriptor (oracle).
+  positions  (harness/c14pos.py) the same question asked systematically: scope (what operator is in force: 221 range,
+             203 definition / in force, after 206, 204, 201/202/207/208, 205, bitmap definition, class-33 / 008023 /
+             marker position after the bitmap) x container (top, fixed / delayed replication incl. count 0, nesting,
+             Table D sequences from a scratch table root, factor position) x class of the unknown id (element class 0,
+             1-9, 10-30, 31, 33, 48-63, local Y; sequence WMO / local) x compressed or not; plain and compiled-template
+             decoder, wire_template_data off and on.  Primary check: error family (and values) of the coder MODEL
+             (`wire`, `dec-data-compiled`) vs the implementation; second: the direct oracle "reached => UnknownDescriptor".
 Oracles evaluate the property on the implementation alone (Python-side direct expansion of the table JSON,
 attributes straight from TableB.json, ids == original_descriptor_ids, replication ownership counted on the tree).
 """
@@ -22,7 +29,7 @@ import os
 import shutil
 import tempfile
 
-from harness import core, tables_io
+from harness import c14pos, core, tables_io
 
 PROP = 'C14'
 
@@ -38,12 +45,19 @@ META = dict(
          'table selection result lies in the documented fall-back chain. Correspondence: every Table D row of the '
          'selected bundled groups (quick: version 33, 4 seeded versions, all local 98_0 tables; thorough: all 36 versions), '
          'random well-counted and ill-counted id lists against template_from_ids, ~650 normalize_tables_sn selections over '
-         'scratch directory trees, and patched messages that must raise UnknownDescriptor.',
+         'scratch directory trees, and patched messages that must raise UnknownDescriptor: ~1 900 (quick; thorough ~16 000) '
+         'messages with one descriptor that is in no table at every kind of position the walk distinguishes (operator scope x '
+         'replication / sequence container x descriptor class x compression), decoded by the plain and the compiled-template '
+         'decoder with and without wiring and by the coder model (error family and values compared).',
     technique='Lean 4 theorems (well-founded induction over (depth, length), stack-machine simulation invariant) + checked '
               'model/implementation correspondence with per-row digests + implementation-only oracles',
     note='Python object sharing between cached sequence descriptors is modelled by value. The failure of decoding on an '
          'undefined descriptor is proved on the dispatch skeleton of process_members (all processing of known members '
-         'abstract); its tie to the real decoder is the oracle stream "unknown" until the coder model carries it. The file '
+         'abstract); the coder model (Coder/Walk.lean: walk1 gives unknownDescr for undefElem / undefSeq / non-Table-B factor '
+         'after the 221, 203 and 206 preludes) is tied to the real decoder by the stream "positions". A position counts as '
+         'reached unless it lies in a delayed replication of count 0 (plain walk only: the template compiler walks every '
+         'replication body once and raises there too) or directly follows 206YYY (FM-94 makes any descriptor there a '
+         'skipped field of YYY bits). The file '
          'system is an abstract directory predicate. Two bundled local rows (312209 of 98_0/1 and 98_0/101) are ill counted '
          '(their replication runs past the end of the row): for them the counting specification is undefined and the '
          'count-free expansion theorem applies.')
@@ -910,7 +924,8 @@ def run(ctx):
                 'expansion is longer than the row); lists: random id lists over Table B/D ids, operators, undefined ids, '
                 'replication nested to depth 4, X up to 63, fixed/delayed (non-trivial: contains a replication or a sequence), '
                 'plus broken-counting variants; normalize: 6 directory configurations x 108 requests + bundled tree; '
-                'unknown: patched encoded messages. Distinct by (group, id) / id list / request hash.')
+                'unknown: patched encoded messages; positions: one message per scope x container x class x compression '
+                '(all non-trivial: every one carries a descriptor that is in no table). Distinct by (group, id) / id list / request hash.')
     gs = groups_for(ctx)
     for wmo_sn, local_sn in gs:
         check_group(ctx, wmo_sn, local_sn)
@@ -922,6 +937,7 @@ def run(ctx):
     check_synthetic(ctx, 8 if q else 80, 40, 20)
     check_normalize(ctx)
     check_unknown(ctx)
+    c14pos.run(ctx)
     report_breaks(ctx)
     ctx.assumptions = ['descriptor objects shared between cached sequences behave as values (no mutation after loading)',
                        'the file system is a pure directory-existence predicate during one call',
@@ -934,7 +950,9 @@ def replay(ctx, path):
     ctx.corr_breaks = []
     ctx.seen_list_failures = set()
     ctx.seen_row_failures = set()
-    if r.get('unknown'):
+    if r.get('positions'):
+        c14pos.replay(ctx, r)
+    elif r.get('unknown'):
         tag, pids, _ = unknown_case(ctx, r['ids'], r['vals'], r['k'], r['role'], r['new_id'])
         if tag is None:
             return
